@@ -418,6 +418,340 @@ func c34OneDKG(run *mon.Run, r *mon.Rand, t, n int) {
 		}
 	}
 	run.Sample(map[string]interface{}{"t": t, "n": n, "message": msg, "group_signature": groupSig, "subsets": len(subsets(n, t))})
+	c34Reaggregate(run, r.Fork("reaggregate"), s, msg, sigHex)
+}
+
+// ---------------------------------------------------------------------------------------------------
+// re-aggregation on the SAME DKG objects. The miner's view-change wait step drops the dealers that did not make it
+// into the magic block with DeleteFromSet, force-adds revealed shares, and then runs AggregatePublicKeyShares(qualified
+// mpks) + AggregateSecretKeyShares on the object that has aggregated before. The statement must hold for the keys
+// every such aggregation leaves behind.
+
+// c34Ref: reference values of a qualified set (indices into s.dkgs), herumi group arithmetic only.
+type c34Ref struct {
+	q    []int
+	pk   map[int]*bls.PublicKey // public key share of member j = sum_{i in Q} eval(mpk_i, id_j)
+	gpk  *bls.PublicKey         // group public key = sum_{i in Q} mpk_i[0]
+	mpks map[tbls.PartyID][]tbls.PublicKey
+}
+
+func c34RefOf(s *dkgSet, q []int) *c34Ref {
+	ref := &c34Ref{q: append([]int{}, q...), pk: map[int]*bls.PublicKey{}, mpks: map[tbls.PartyID][]tbls.PublicKey{}}
+	var consts []*bls.PublicKey
+	for _, i := range q {
+		m := s.dkgs[i].GetMPKs()
+		ref.mpks[s.dkgs[i].ID] = m
+		consts = append(consts, &m[0])
+	}
+	ref.gpk = refSum(consts)
+	for _, j := range q {
+		var parts []*bls.PublicKey
+		for _, i := range q {
+			parts = append(parts, refEvalPub(s.dkgs[i].GetMPKs(), &s.dkgs[j].ID))
+		}
+		ref.pk[j] = refSum(parts)
+	}
+	return ref
+}
+
+func c34Without(all []int, drop []int) []int {
+	d := map[int]bool{}
+	for _, x := range drop {
+		d[x] = true
+	}
+	var out []int
+	for _, x := range all {
+		if !d[x] {
+			out = append(out, x)
+		}
+	}
+	return out
+}
+
+// c34CheckStage judges the whole DKG statement on the qualified set after an aggregation step: shares validate against
+// the senders' polynomials, aggregated keys match the group-derived public keys, signature shares verify under them,
+// every t-subset of the qualified parties (canonical and one seeded order) recovers one group signature that verifies
+// under the group public key the harness computed from the qualified dealers' polynomials.
+func c34CheckStage(run *mon.Run, r *mon.Rand, s *dkgSet, ref *c34Ref, stage, class, msg string) {
+	t, n := s.t, s.n
+	q := ref.q
+	tn := fmt.Sprintf("t=%d|n=%d", t, n)
+	rep := func(extra map[string]interface{}) map[string]interface{} {
+		m := map[string]interface{}{"seed": mon.Seed(), "t": t, "n": n, "stage": stage, "qualified": q}
+		for k, v := range extra {
+			m[k] = v
+		}
+		return m
+	}
+	where := fmt.Sprintf("t=%d n=%d after %s (qualified %v)", t, n, stage, q)
+	run.Count("c34.reaggregation_stage_checked", 1)
+	run.Count("c34.reaggregation."+class, 1)
+	bad := false
+	for _, i := range q {
+		for _, j := range q {
+			run.Eval(1)
+			run.Count("c34.reaggregation_share_validated", 1)
+			okRef := s.shares[i][j].GetPublicKey().IsEqual(refEvalPub(ref.mpks[s.dkgs[i].ID], &s.dkgs[j].ID))
+			if !s.dkgs[j].ValidateShare(ref.mpks[s.dkgs[i].ID], s.shares[i][j]) || !okRef {
+				bad = true
+				violate(run, "C34:validate-share-rejects-valid-after-reaggregation", fmt.Sprintf("%s: share %d->%d does not validate against the sender's polynomial", where, i, j), rep(map[string]interface{}{"from": i, "to": j}))
+			}
+		}
+	}
+	for _, j := range q {
+		dj := s.dkgs[j]
+		run.Eval(1)
+		run.Count("c34.reaggregation_key_share_checked", 1)
+		if dj.Pi == nil || !dj.Pi.IsEqual(ref.pk[j]) || !dj.Si.GetPublicKey().IsEqual(ref.pk[j]) {
+			bad = true
+			violate(run, "C34:aggregated-secret-key-mismatch-after-reaggregation", fmt.Sprintf("%s: party %d's aggregated secret key does not match the qualified dealers' public polynomials", where, j), rep(map[string]interface{}{"party": j}))
+		}
+		for _, k := range q {
+			pk := s.dkgs[k].GetPublicKeyByID(dj.ID)
+			if !pk.IsEqual(ref.pk[j]) {
+				bad = true
+				violate(run, "C34:group-derived-public-key-mismatch-after-reaggregation", fmt.Sprintf("%s: party %d derives a wrong public key for party %d", where, k, j), rep(map[string]interface{}{"party": j, "viewer": k}))
+			}
+		}
+	}
+	sigHex := map[int]string{}
+	idHex := map[int]string{}
+	for qi, j := range q {
+		dj := s.dkgs[j]
+		sg := dj.Sign(msg)
+		sigHex[j] = sg.GetHexString()
+		idHex[j] = dj.ID.GetHexString()
+		viewer := s.dkgs[q[(qi+1)%len(q)]]
+		run.Eval(1)
+		run.Count("c34.reaggregation_share_signature_verified", 1)
+		if !sg.Verify(ref.pk[j], msg) {
+			bad = true
+			violate(run, "C34:share-signature-invalid-under-reference-key-after-reaggregation", fmt.Sprintf("%s: party %d's signature share does not verify under its reference public key", where, j), rep(map[string]interface{}{"party": j}))
+		}
+		if !viewer.VerifySignature(sg, msg, dj.ID) {
+			bad = true
+			violate(run, "C34:share-signature-rejected-after-reaggregation", fmt.Sprintf("%s: VerifySignature rejects party %d's signature share under its group-derived public key", where, j), rep(map[string]interface{}{"party": j}))
+		}
+		if viewer.VerifySignature(sg, msg+"x", dj.ID) {
+			bad = true
+			violate(run, "C34:share-signature-accepted-for-other-message", fmt.Sprintf("%s party %d", where, j), rep(nil))
+		}
+	}
+	var groupSig string
+	for _, sub := range subsets(len(q), t) {
+		canon := make([]int, len(sub))
+		for x, qi := range sub {
+			canon[x] = q[qi]
+		}
+		ords := orders(r, canon)
+		for oi, ord := range [][]int{ords[0], ords[2]} {
+			var ss, is []string
+			for _, j := range ord {
+				ss = append(ss, sigHex[j])
+				is = append(is, idHex[j])
+			}
+			var g tbls.Sign
+			var err error
+			p := guard(func() { g, err = s.dkgs[ord[0]].CalBlsGpSign(ss, is) })
+			run.Eval(1)
+			run.Count("c34.reaggregation_subset_recovered", 1)
+			if p != "" || err != nil {
+				bad = true
+				violate(run, "C34:threshold-subset-does-not-recover-after-reaggregation", fmt.Sprintf("%s subset %v: CalBlsGpSign fails: %s %v", where, ord, p, err), rep(map[string]interface{}{"subset": ord}))
+				continue
+			}
+			if !g.Verify(ref.gpk, msg) {
+				bad = true
+				violate(run, "C34:recovered-signature-invalid-after-reaggregation", fmt.Sprintf("%s subset %v (order %d): the recovered group signature does not verify under the group public key of the qualified dealers", where, ord, oi), rep(map[string]interface{}{"subset": ord}))
+			}
+			if h := g.GetHexString(); groupSig == "" {
+				groupSig = h
+			} else if groupSig != h {
+				bad = true
+				violate(run, "C34:subsets-recover-different-signatures-after-reaggregation", fmt.Sprintf("%s subset %v (order %d) recovers %s, an earlier subset recovered %s", where, ord, oi, h[:16], groupSig[:16]), rep(map[string]interface{}{"subset": ord}))
+			}
+		}
+	}
+	run.Distinct(fmt.Sprintf("reaggregate|%s|%s|qualified=%d|holds=%v", tn, class, len(q), !bad))
+}
+
+func c34Reaggregate(run *mon.Run, r *mon.Rand, s *dkgSet, msg string, firstSigHex []string) {
+	t, n := s.t, s.n
+	all := make([]int, n)
+	for i := range all {
+		all[i] = i
+	}
+	rep := func(stage string, extra map[string]interface{}) map[string]interface{} {
+		m := map[string]interface{}{"seed": mon.Seed(), "t": t, "n": n, "stage": stage}
+		for k, v := range extra {
+			m[k] = v
+		}
+		return m
+	}
+	idsOf := func(idx []int) []string {
+		var out []string
+		for _, i := range idx {
+			out = append(out, s.ids[i])
+		}
+		return out
+	}
+	steps := 1 // aggregations every object has seen so far
+	// aggregate runs the two aggregation calls on party j; the miner's order is public keys first
+	aggregate := func(j int, ref *c34Ref, pubFirst bool) {
+		dj := s.dkgs[j]
+		if pubFirst {
+			if err := dj.AggregatePublicKeyShares(ref.mpks); err != nil {
+				panic(err)
+			}
+			dj.AggregateSecretKeyShares()
+		} else {
+			dj.AggregateSecretKeyShares()
+			if err := dj.AggregatePublicKeyShares(ref.mpks); err != nil {
+				panic(err)
+			}
+		}
+		run.Count("c34.reaggregation_calls", 1)
+	}
+	// settle makes q the qualified set of every member of q: the shares of everybody else are deleted (dropped lists in
+	// different orders and groupings per party), the shares of members are (re-)added, both aggregations run again.
+	settle := func(q []int, variant int) *c34Ref {
+		ref := c34RefOf(s, q)
+		out := c34Without(all, q)
+		for qi, j := range q {
+			dj := s.dkgs[j]
+			if len(out) > 0 {
+				ords := orders(r, out)
+				switch (qi + variant) % 4 {
+				case 0:
+					dj.DeleteFromSet(idsOf(ords[0]))
+				case 1:
+					dj.DeleteFromSet(idsOf(ords[1]))
+				case 2:
+					dj.DeleteFromSet(idsOf(ords[2]))
+				default:
+					for _, o := range ords[2] { // one call per dropped dealer
+						dj.DeleteFromSet(idsOf([]int{o}))
+					}
+				}
+			}
+			for _, i := range q {
+				if err := dj.AddSecretShare(s.dkgs[i].ID, s.shares[i][j].GetHexString(), (qi+i+variant)%2 == 0); err != nil {
+					violate(run, "C34:genuine-share-refused-on-re-add", fmt.Sprintf("t=%d n=%d: AddSecretShare refuses the genuine share %d->%d: %v", t, n, i, j, err), rep("re-add", nil))
+				}
+			}
+			if dj.GetSecretSharesSize() != len(q) {
+				violate(run, "C34:held-share-set-differs-from-qualified-set", fmt.Sprintf("t=%d n=%d: party %d holds %d shares, the qualified set has %d dealers", t, n, j, dj.GetSecretSharesSize(), len(q)), rep("settle", map[string]interface{}{"qualified": q}))
+			}
+			aggregate(j, ref, (qi+variant)%3 != 2)
+		}
+		steps++
+		return ref
+	}
+
+	// (a) the same aggregation again, twice: nothing may change
+	full := c34RefOf(s, all)
+	first := make([]string, n)
+	for j, dj := range s.dkgs {
+		first[j] = dj.Si.GetHexString()
+	}
+	for round := 2; round <= 3; round++ {
+		for j, dj := range s.dkgs {
+			switch (j + round) % 3 {
+			case 0:
+				dj.AggregateSecretKeyShares()
+				run.Count("c34.reaggregation_calls", 1)
+			case 1:
+				aggregate(j, full, true)
+			default:
+				aggregate(j, full, false)
+			}
+			run.Eval(1)
+			if dj.Si.GetHexString() != first[j] || dj.Sign(msg).GetHexString() != firstSigHex[j] {
+				violate(run, "C34:repeated-aggregation-changes-key", fmt.Sprintf("t=%d n=%d: party %d's aggregated key after aggregation call %d over unchanged shares differs from the key after the first call", t, n, j, round), rep("repeat", map[string]interface{}{"party": j, "call": round}))
+			}
+		}
+		steps++
+		c34CheckStage(run, r, s, full, fmt.Sprintf("aggregation call %d over unchanged shares", round), "repeat", msg)
+	}
+
+	// (b) dealers are disqualified one after the other down to t qualified parties; every step re-aggregates on the same objects
+	perm := append([]int{}, all...)
+	r.Shuffle(n, func(i, j int) { perm[i], perm[j] = perm[j], perm[i] })
+	for d := 1; d <= n-t; d++ {
+		q := c34Without(all, perm[:d])
+		ref := settle(q, d)
+		c34CheckStage(run, r, s, ref, fmt.Sprintf("disqualifying dealers %v one after the other (aggregation %d on these objects)", perm[:d], steps), fmt.Sprintf("disqualified-%d-cumulative", d), msg+fmt.Sprint(d))
+	}
+	// (c) disqualified dealers come back (their shares are added again), in two steps up to the full set
+	if n-t >= 1 {
+		if n-t >= 2 {
+			half := (n - t) / 2
+			q := c34Without(all, perm[:half])
+			ref := settle(q, 1)
+			c34CheckStage(run, r, s, ref, fmt.Sprintf("re-adding dealers %v (aggregation %d)", perm[half:n-t], steps), "re-added-part", msg+"r")
+		}
+		ref := settle(all, 2)
+		c34CheckStage(run, r, s, ref, fmt.Sprintf("re-adding all disqualified dealers (aggregation %d)", steps), "re-added-all", msg)
+		for j, dj := range s.dkgs {
+			if dj.Si.GetHexString() != first[j] {
+				violate(run, "C34:repeated-aggregation-changes-key", fmt.Sprintf("t=%d n=%d: party %d's key over the full share set after disqualification and re-adding differs from the first aggregation", t, n, j), rep("re-add", map[string]interface{}{"party": j}))
+			}
+		}
+		// several dealers disqualified at once from the full set
+		k := 1 + r.Intn(n-t)
+		drop := pickDistinct(r, n, k)
+		q := c34Without(all, drop)
+		ref = settle(q, 3)
+		c34CheckStage(run, r, s, ref, fmt.Sprintf("disqualifying dealers %v at once (aggregation %d)", drop, steps), fmt.Sprintf("disqualified-%d-at-once", k), msg+"o")
+		// cur stays q
+		all = q
+	}
+
+	// (d) a held share is replaced (force) by one that is not on the dealer's polynomial, then by the genuine one again
+	cur := all
+	ref := c34RefOf(s, cur)
+	j := cur[r.Intn(len(cur))]
+	i := cur[r.Intn(len(cur))]
+	dj := s.dkgs[j]
+	wrong := s.shares[i][j]
+	var one bls.SecretKey
+	if err := one.SetDecString(fmt.Sprint(1 + r.Intn(1000))); err != nil {
+		panic(err)
+	}
+	wrong.Add(&one)
+	if err := dj.AddSecretShare(s.dkgs[i].ID, wrong.GetHexString(), false); err == nil {
+		run.Count("c34.unforced_replacement_taken", 1) // not part of the statement; evidence only
+		_ = dj.AddSecretShare(s.dkgs[i].ID, s.shares[i][j].GetHexString(), true)
+	}
+	aggregate(j, ref, true) // unforced replacement refused (or undone): same shares, same key
+	run.Eval(1)
+	if dj.Pi == nil || !dj.Pi.IsEqual(ref.pk[j]) {
+		violate(run, "C34:aggregated-secret-key-mismatch-after-reaggregation", fmt.Sprintf("t=%d n=%d: party %d's key after a refused share replacement and another aggregation does not match the public polynomials", t, n, j), rep("refused-replacement", map[string]interface{}{"party": j}))
+	}
+	if err := dj.AddSecretShare(s.dkgs[i].ID, wrong.GetHexString(), true); err != nil {
+		panic(err)
+	}
+	aggregate(j, ref, true)
+	// reference: the key is the sum of the shares the party holds now = reference key + image(wrong) - image(genuine)
+	var heldImg bls.G2
+	bls.G2Add(&heldImg, bls.CastFromPublicKey(ref.pk[j]), bls.CastFromPublicKey(wrong.GetPublicKey()))
+	var heldImg2 bls.G2
+	bls.G2Sub(&heldImg2, &heldImg, bls.CastFromPublicKey(s.shares[i][j].GetPublicKey()))
+	run.Eval(1)
+	run.Count("c34.reaggregation.replaced-by-bad-share", 1)
+	if dj.Pi == nil || !dj.Pi.IsEqual(bls.CastToPublicKey(&heldImg2)) {
+		violate(run, "C34:aggregated-key-is-not-sum-of-held-shares", fmt.Sprintf("t=%d n=%d: after the share of dealer %d was replaced, party %d's aggregated key is not the sum of the shares it holds", t, n, i, j), rep("replace", map[string]interface{}{"party": j, "dealer": i}))
+	}
+	viewer := s.dkgs[cur[(r.Intn(len(cur)))]]
+	if viewer.VerifySignature(dj.Sign(msg), msg, dj.ID) {
+		violate(run, "C34:share-signature-of-bad-key-accepted", fmt.Sprintf("t=%d n=%d: party %d aggregated a share that is not on dealer %d's polynomial, its signature share still verifies under the group-derived public key", t, n, j, i), rep("replace", map[string]interface{}{"party": j, "dealer": i}))
+	}
+	if err := dj.AddSecretShare(s.dkgs[i].ID, s.shares[i][j].GetHexString(), true); err != nil {
+		panic(err)
+	}
+	aggregate(j, ref, false)
+	steps++
+	c34CheckStage(run, r, s, ref, fmt.Sprintf("replacing the share %d->%d by a bad one and by the genuine one again (aggregation %d)", i, j, steps), "replaced-and-restored", msg+"d")
 }
 
 // addSignHex shifts a signature given in herumi's GetHexString form.
